@@ -16,7 +16,12 @@ CHECKS = {
         "Rocq proof (codec round-trip/injectivity, tree invariants) + vm_compute correspondence on real SessionManager traces",
         "Theorems (Props/C14.v, closed under the global context): every session-id plaintext resolves to exactly its "
         "(user, client, grant) path for all identifiers; key and session-id injectivity; lv round trip for all lists of all "
-        "strings; tree theorems over the Db model. The model is hand-written and compared with the real Database/GrantManager "
+        "strings; Database.branch_key tied to the source by translation. Tree theorems over Model/Db.v by induction over all "
+        "operation sequences (add_grant, revoke at every level, delete at every depth and of every path, flush; "
+        "Proofs/Db_proofs.v): every stored node is listed by its stored parent, no subordinate dangles, one node per "
+        "path (C14_reachable_from_parent, C14_no_dangling_subordinate, C14_one_node_per_path); delete removes exactly the "
+        "subtree and otherwise touches only strict ancestors (C14_delete_exact); any number of operations on other users' "
+        "branches leaves a node unchanged (C14_other_users_unchanged). The model is hand-written and compared with the real Database/GrantManager "
         "after every operation of generated traces (whole-database snapshots) plus an independent structural/frame/"
         "exact-removal oracle on the real database.",
         LEVEL_NOTE_COMMON + "Fernet is idealised as authenticated encryption; grant ids (uuid1) assumed fresh.",
